@@ -603,7 +603,8 @@ package moss
 //@   attr obligations call-requires ensures
 //@   attr only-labels notReadOnly readOnlyFlag modeLinked same history current
 //@   requires s != nil && s.options != nil && readOnlyMode() == s.options.CollectionOptions.ReadOnly
-//@   modifies s.footer, s.totPersists, heap(Footer.fileName), heap(Footer.filePos), heap(Footer.PrevFooterOffset)
+//@   requires typeIs(revertTo, "*Footer") ==> footerDepth(ptrOf(revertTo, "*Footer")) == 0 && (ptrOf(revertTo, "*Footer") == s.footer ==> s.footer.refs >= 2)
+//@   modifies s.footer, s.totPersists, heap(Footer.fileName), heap(Footer.filePos), heap(Footer.PrevFooterOffset), heap(Footer.refs), heap(Footer.SegmentLocs), heap(Footer.ss), heap(Footer.ChildFooters), heap(mmapRef.refs), heap(mmapRef.buf), heap(mmapRef.fref), heap(mmapRef.mm), heap(FileRef.refs), heap(FileRef.file), heap(FileRef.beforeCloseCallbacks), heap(FileRef.afterCloseCallbacks), ioFailed
 //@   ensures @current result == nil ==> s.footer != nil && fresh(s.footer)
 //@   ensures @same result == nil ==> typeIs(revertTo, "*Footer") && sameLocs(s.footer, ptrOf(revertTo, "*Footer"))
 //@   ensures @history result == nil && old(s.footer) != nil ==> s.footer.PrevFooterOffset == old(s.footer.filePos)
@@ -726,12 +727,16 @@ package moss
 //@ func (s *Store) revertToSnapshot(revertToFooter *Footer, options StorePersistOptions) (rv *Footer, err error)
 //@   props C12 C11
 //@   requires revertToFooter != nil
+//@   modifies heap(Footer.refs), heap(Footer.SegmentLocs), heap(Footer.ss), heap(Footer.ChildFooters), heap(mmapRef.refs), heap(mmapRef.buf), heap(mmapRef.fref), heap(mmapRef.mm), heap(FileRef.refs), heap(FileRef.file), heap(FileRef.beforeCloseCallbacks), heap(FileRef.afterCloseCallbacks), ioFailed
+//@   ensures @assume_depth err == nil ==> footerDepth(rv) == footerDepth(revertToFooter)
+//@   ensures @frame err == nil ==> (forall g *Footer :: g.refs == old(g.refs) && g.SegmentLocs == old(g.SegmentLocs) && g.ChildFooters == old(g.ChildFooters) && g.ss == old(g.ss))
 //@   ensures @fresh err == nil ==> rv != nil && fresh(rv)
 //@   ensures @same err == nil ==> sameLocs(rv, revertToFooter)
 //@   ensures @children err == nil ==> (forall c string :: has(revertToFooter.ChildFooters, c) ==> has(rv.ChildFooters, c) && sameLocs(rv.ChildFooters[c], revertToFooter.ChildFooters[c]))
 //@   ensures @noOthers err == nil ==> (forall c string :: has(rv.ChildFooters, c) ==> has(revertToFooter.ChildFooters, c))
 //@   ensures @incar err == nil ==> rv.incarNum == revertToFooter.incarNum
-//@   loop 1: modifies footer.ChildFooters
+//@   loop 1: modifies footer.ChildFooters, heap(mmapRef.refs), heap(mmapRef.buf), heap(mmapRef.fref), heap(mmapRef.mm), heap(FileRef.refs), heap(FileRef.file), heap(FileRef.beforeCloseCallbacks), heap(FileRef.afterCloseCallbacks), ioFailed
+//@   loop 1: invariant forall g *Footer :: g.refs == old(g.refs) && g.SegmentLocs == old(g.SegmentLocs) && g.ChildFooters == old(g.ChildFooters) && g.ss == old(g.ss)
 //@   loop 1: invariant footer != nil && fresh(footer) && sameLocs(footer, revertToFooter)
 //@   loop 1: invariant footer.ChildFooters != nil ==> sinceLoop(footer.ChildFooters)
 //@   loop 1: invariant forall c string :: visited(c) ==> has(footer.ChildFooters, c) && sameLocs(footer.ChildFooters[c], revertToFooter.ChildFooters[c])
@@ -750,8 +755,8 @@ package moss
 //@   props C12
 //@   attr obligations ensures
 //@   requires s != nil
-//@   ensures @prev r1 == nil && r0 != nil ==> typeIs(ss, "*Footer") && len(ptrOf(ss, "*Footer").SegmentLocs) > 0 &&
-//@       r0 == ifaceOf(scanAt(ptrOf(ss, "*Footer").SegmentLocs[0].mref.fref, ptrOf(ss, "*Footer").PrevFooterOffset))
+//@   ensures @prev r1 == nil && r0 != nil ==> typeIs(ss, "*Footer") && old(len(ptrOf(ss, "*Footer").SegmentLocs)) > 0 &&
+//@       r0 == ifaceOf(scanAt(old(ptrOf(ss, "*Footer").SegmentLocs[0].mref.fref), old(ptrOf(ss, "*Footer").PrevFooterOffset)))
 
 // ---- single-segment iterator (C09) -------------------------------------------------------------------
 
@@ -1000,6 +1005,7 @@ package moss
 // Assumed, not proved.
 //@ pure abstract func footerDepth(f *Footer) int
 //@ assume-invariant footerTree: forall f *Footer, c string :: has(f.ChildFooters, c) ==> footerDepth(f.ChildFooters[c]) == footerDepth(f) + 1
+//@ assume-invariant storeFooterRoot: forall s *Store :: s.footer != nil ==> footerDepth(s.footer) == 0
 //@ assume-invariant footerNoSharing: forall f *Footer, c string, d string :: has(f.ChildFooters, c) && has(f.ChildFooters, d) && c != d ==> f.ChildFooters[c] != f.ChildFooters[d]
 
 //@ func (slocs SegmentLocs) DecRef()
@@ -1046,3 +1052,13 @@ package moss
 //@   modifies heap(Footer.refs)
 //@   ensures @ref r1 == nil && r0 == s.footer && (r0 != nil ==> r0.refs == old(r0.refs) + 1)
 //@   ensures @others forall g *Footer :: g != s.footer ==> g.refs == old(g.refs)
+
+// Writing the segments of a round only appends to the file and to the new
+// footer's location lists (the segment writers themselves: C04).
+//@ func (s *Store) persistSegments(ss *segmentStack, footer *Footer, file File, fref *FileRef) error
+//@   props C06
+//@   attr obligations call-requires
+//@   attr only-labels none
+//@   modifies heap(Footer.SegmentLocs), ioFailed, unsynced
+//@ func (ss *segmentStack) ensureFullySorted()
+//@   trusted deferred-sort ticket protocol abstracted: the segments under contract are sorted already
